@@ -30,6 +30,26 @@ def laplace_like(tt, N, dt, gen):
     return total.round(1e-14)
 
 
+def diagvar(tt, N, dt, gen):
+    """Kronecker sum of tridiag(-0.45, v, -0.45) with v from 1 to 100 along every mode: symmetric, strictly diagonally dominant,
+    condition number about 100 - and a diagonal that varies strongly (what a Jacobi preconditioner is for)"""
+    d = len(N)
+    total = None
+    for k in range(d):
+        cores = []
+        for j in range(d):
+            n = N[j]
+            if j == k:
+                v = torch.linspace(1.0, 100.0, n, dtype=dt) if n > 1 else torch.tensor([10.0], dtype=dt)
+                T = torch.diag(v) - 0.45 * torch.diag(torch.ones(n - 1, dtype=dt), 1) - 0.45 * torch.diag(torch.ones(n - 1, dtype=dt), -1) if n > 1 else torch.diag(v)
+                cores.append(T.reshape(1, n, n, 1))
+            else:
+                cores.append(torch.eye(n, dtype=dt).reshape(1, n, n, 1))
+        S = tt.TT(cores)
+        total = S if total is None else total + S
+    return total.round(1e-14)
+
+
 def spd(tt, N, r, dt, gen):
     """B^T B + I with B a random TT matrix of rank r scaled so that ||B|| is O(1)"""
     B = rand_tt(tt, [(n, n) for n in N], r, gen, dt, scale=1.0 / math.sqrt(max(N)))
@@ -58,6 +78,8 @@ def run_solve(st, opts):
     sysc = cfg["sys"]
     if sysc == "laplace":
         A = laplace_like(tt, N, dt, gen)
+    elif sysc == "diagvar":
+        A = diagvar(tt, N, dt, gen)
     elif sysc == "spd":
         A = spd(tt, N, cfg["r"], dt, gen)
     else:
